@@ -552,8 +552,15 @@ class CookieScenario(explore.Scenario):
         # the keyring content is state too: which ids are taken decides what
         # the next exchange is given
         ids = tuple(sorted(l.split()[0] for l in _keyring_left(w.keyring)))
-        chal = tuple((c or b'').split(b' ')[-1][:0] for c in w.challenge)
-        return (tuple(w.state), tuple(w.rounds), ids)
+        # ... and which exchange holds which cookie
+        held = []
+        for st, c in zip(w.state, w.challenge):
+            if st == 'data' and c:
+                held.append(binascii.unhexlify(c.split(b' ', 1)[1].strip())
+                            .split()[1])
+            else:
+                held.append(None)
+        return (tuple(w.state), tuple(w.rounds), ids, tuple(held))
 
     def nontrivial(self, hist):
         return len({e[1] for e in hist}) > 1
